@@ -4,6 +4,7 @@ import (
 	"fmt"
 	"math"
 	"sort"
+	"strings"
 	"time"
 
 	"pgregory.net/rapid"
@@ -318,6 +319,13 @@ func GenLeaf(t *rapid.T, s *hx.Schema, base string, label string, hint int) hx.V
 	case "Float64":
 		return hx.F64(rapid.SampledFrom([]float64{0, 0.1, -2.5, 1e300, 5e-324, 1.0 / 3, 123456789.125, -1e-7}).Draw(t, label+"f64"))
 	case "String":
+		if rapid.IntRange(0, 11).Draw(t, label+"long") == 0 {
+			// a long text with characters that need the six byte escape, at any distance from the start
+			// (a writer that works in blocks has its boundaries somewhere)
+			n := rapid.IntRange(40, 140).Draw(t, label+"longLen")
+			special := rapid.SampledFrom([]string{"\x01", "\x1f\x7f", "\x0b\"", "\u00e9\x02", "\\\x1e"}).Draw(t, label+"longSpecial")
+			return hx.Str(strings.Repeat("x", n) + special + strings.Repeat("y", rapid.IntRange(0, 70).Draw(t, label+"longTail")) + special)
+		}
 		return hx.Str(rapid.SampledFrom(stringPool).Draw(t, label+"s"))
 	case "ID":
 		return hx.Str(rapid.SampledFrom([]string{"id-1", "7", "", "Z"}).Draw(t, label+"id"))
